@@ -13,6 +13,7 @@ Expressions (tuples):
   ('arith', op, e1, e2)  op in + - * on ints
   ('cmp', op, e1, e2)    == != < > <= >=
   ('and', e1, e2) ('or', e1, e2) ('not', e)
+  ('ifelse', cond, e1, e2)   e1 if cond else e2  /  cond ? e1 : e2
   ('like', e, pattern_str)
   ('len', e) ('upper', e) ('split', e, sep) ('list', e1, ...)
   ('toint', e)           int(e)           (Python only)
@@ -173,6 +174,8 @@ def render_expr(e, lang, sp):
         return '%s %s %s' % (R(e[1]), 'or' if lang == 'py' else '||', R(e[2]))
     if k == 'not':
         return ('not (%s)' if lang == 'py' else '!(%s)') % R(e[1])
+    if k == 'ifelse':
+        return ('%s if %s else %s' % (R(e[2]), R(e[1]), R(e[3]))) if lang == 'py' else ('%s ? %s : %s' % (R(e[1]), R(e[2]), R(e[3])))
     if k == 'paren':
         return '(%s)' % R(e[1])
     if k == 'like':
@@ -407,6 +410,10 @@ def ev(e, env):
         x = ev(e[1], env)
         _need(isinstance(x, bool))
         return not x
+    if k == 'ifelse':
+        c = ev(e[1], env)
+        _need(isinstance(c, bool))
+        return ev(e[2], env) if c else ev(e[3], env)
     if k == 'paren':
         return ev(e[1], env)
     if k == 'like':
